@@ -212,3 +212,15 @@ var (
 	refPallasMina = minaGenerator(refcurve.Pallas(), "12418654782883325593414442427049395787963493412651469444558597405572177144507")
 	refVestaMina  = minaGenerator(refcurve.Vesta(), "11426906929455361843568202299992114520848200991084027513389447476559454104162")
 )
+
+// noPointX returns the least x >= start (mod p) that is not the abscissa of a curve point.
+func noPointX(c *refcurve.Curve, start *big.Int) *big.Int {
+	x := new(big.Int).Mod(start, c.P)
+	for {
+		if _, ok := c.LiftX(x, false); !ok {
+			return x
+		}
+		x = new(big.Int).Add(x, one)
+		x.Mod(x, c.P)
+	}
+}
